@@ -17,7 +17,10 @@ pub fn file_manager(input: &Value) -> FileManager {
 			.unwrap_or(crate::DEFAULT_CERT_FORMAT)
 			.to_string(),
 		crt_directory: input["dir"].as_str().unwrap_or("").to_string(),
-		crt_key_type: input["key_type"].as_str().unwrap_or("ecdsa-p256").to_string(),
+		crt_key_type: input["key_type"]
+			.as_str()
+			.unwrap_or("ecdsa-p256")
+			.to_string(),
 		cert_file_mode: input["cert_file_mode"].as_u64().unwrap_or(0o644) as u32,
 		cert_file_owner: opt_s(&input["cert_file_user"]),
 		cert_file_group: opt_s(&input["cert_file_group"]),
@@ -102,7 +105,9 @@ pub fn lookup(input: &Value) -> Value {
 		input["identifier"].as_str().unwrap_or(""),
 		input["wildcard"].as_bool().unwrap_or(false),
 	) {
-		Ok(id) => json!({"found": {"type": id.id_type.to_string(), "value": id.value, "challenge": id.challenge.to_string()}}),
+		Ok(id) => {
+			json!({"found": {"type": id.id_type.to_string(), "value": id.value, "challenge": id.challenge.to_string()}})
+		}
 		Err(_) => json!({"not_found": true}),
 	}
 }
@@ -120,8 +125,10 @@ pub fn ident(input: &Value) -> Value {
 		input["challenge"].as_str().unwrap_or("http-01"),
 		&env,
 	) {
-		Ok(id) => json!({"ok": {"type": id.id_type.to_string(), "value": id.value, "challenge": id.challenge.to_string(),
-			"tls_alpn_name": id.get_tls_alpn_name().ok()}}),
+		Ok(id) => {
+			json!({"ok": {"type": id.id_type.to_string(), "value": id.value, "challenge": id.challenge.to_string(),
+			"tls_alpn_name": id.get_tls_alpn_name().ok()}})
+		}
 		Err(_) => json!({"rejected": true}),
 	}
 }
